@@ -1,5 +1,5 @@
 (* C08 - Error recovery is transparent on success, loud on failure, and never silent. *)
-From Chum Require Import Corollaries.
+From Chum Require Import Corollaries DelimsP.
 
 Theorem C08_transparent_on_success :
   forall K toks spn n x y ctx p a r a1,
@@ -38,6 +38,25 @@ Theorem C08_error_free_result_has_no_recovery_error :
     exists v', sem_top K toks spn n g = Some (Some v', []) /\ ov = bindv m v'.
 Proof. intros K toks spn n m g ov. exact (run_top_ok K toks spn n m g ov []). Qed.
 
+(* nested_delimiters(start, end, others, fallback) -- a derived parser (Model/Text.v: nested_delims, the definition of
+   recovery.rs:234-275) -- consumes exactly one balanced delimited region: whatever it matches is `start`, a balanced
+   sequence (tokens that are no delimiter, and groups o .. c for the given pairs, each balanced inside), `end`; its
+   output is the fallback applied to the span of exactly that region.  (Soundness; that every balanced region is matched
+   is checked by the correspondence run only.) *)
+Theorem C08_nested_delimiters_consumes_one_balanced_region :
+  forall K toks spn s e others n ctx p a v p' em a',
+    p <= length toks ->
+    sem K toks spn n (nested_delims s e others) ctx p a = Some (Some (v, p', em), a') ->
+    exists inner, seg toks p p' = s :: inner ++ [e] /\ bal s e others inner /\ v = vspan (spn p p').
+Proof. exact nested_delims_sound. Qed.
+
+Example C08_nested_delimiters_example :
+  let toks := [40; 97; 91; 98; 93; 41; 99]%N in
+  sem KRich toks (fun a b => (a, b)) 30 (nested_delims 40%N 41%N [(91%N, 93%N)]) env0 0 None
+    = Some (Some (VSpan 0 6, 6, []), Some (5, mkErr (5, 6) (REF [pSomethingElse; pTok 40; pTok 91]%N (Some 41%N)) []))
+  /\ fst (go no_quirks KRich [40; 97; 91; 98; 41]%N (fun a b => (a, b)) 30 Emit (nested_delims 40%N 41%N [(91%N, 93%N)]) env0 init_st) = Err.
+Proof. split; vm_compute; reflexivity. Qed.
+
 Example C08_example :
   let toks := [98; 120; 59]%N in
   let g := Then (RecoverSkipUntil (Just [97%N]) Any (Just [59%N]) 9) End in
@@ -50,3 +69,4 @@ Print Assumptions C08_loud_on_failure.
 Print Assumptions C08_both_fail_same_error.
 Print Assumptions C08_machine_recovers_as_specified.
 Print Assumptions C08_error_free_result_has_no_recovery_error.
+Print Assumptions C08_nested_delimiters_consumes_one_balanced_region.
